@@ -898,7 +898,7 @@ def own_token_followup(ctx, impl, as_proof_witness=False):
                     'shaped, on which model and implementation AGREE: evidence, not a property failure (the soundness clause of '
                     'C13 speaks of validity only). zh_ip_glued_*: the two recorded quirks of the Chinese configuration, optional '
                     'patches under findings/sequence/',
-            'counts': dict({v: 0 for v in ZH_COUNTERS.values()}, own_token_observations=0, **counts),
+            'counts': {**{v: 0 for v in ZH_COUNTERS.values()}, 'own_token_observations': 0, **counts},
             'examples': examples}
 
 
